@@ -123,7 +123,7 @@ func NewStore(r *rt.Rand, family string) *Store {
 			ps = append(ps, Pair{K: extra[r.Intn(len(extra))] + string(rune('0'+i)), V: extra[r.Intn(len(extra))]})
 		}
 	case FJSON:
-		docs := append([]string{`{"x":3,"y":"w","o":{"y":"q","z":[1,2]},"list":[{"a":1},{"a":2}]}`, `{"x":"7","y":"","o":{},"list":[]}`, `{"x":4,"y":"s","o":{"y":"deep","o":{"y":"deeper"}},"list":[1,2,3]}`}, jsonVals[:4]...)
+		docs := append([]string{" {\"x\":5,\"y\":\"lead\",\"o\":{\"y\":\"sp\"},\"list\":[1]}", "\n{\n  \"x\": 6,\n  \"y\": \"pretty\",\n  \"list\": [2, 3]\n}", `{"x":3,"y":"w","o":{"y":"q","z":[1,2]},"list":[{"a":1},{"a":2}]}`, `{"x":"7","y":"","o":{},"list":[]}`, `{"x":4,"y":"s","o":{"y":"deep","o":{"y":"deeper"}},"list":[1,2,3]}`}, jsonVals[:4]...)
 		n := r.Range(2, 40)
 		for i := 0; i < n; i++ {
 			ps = append(ps, Pair{K: numKey(r), V: docs[r.Intn(len(docs))]})
